@@ -20,6 +20,7 @@ mod c_reuse;
 mod c_bytecode;
 mod c_total;
 mod c_context;
+mod c_shape;
 mod helpers;
 
 use common::Report;
@@ -105,6 +106,7 @@ pub fn run(contract: &str, thorough: bool, seed: u64) -> Report {
         "bytecode" => c_bytecode::bytecode(thorough, seed),
         "total" => c_total::total(thorough, seed),
         "context_rewrites" => c_context::context_rewrites(thorough),
+        "shape_bind" => c_shape::shape_bind(thorough),
         _ => {
             eprintln!("unknown contract {contract}");
             std::process::exit(2);
@@ -125,6 +127,7 @@ fn replay(v: &serde_json::Value) -> i32 {
         "bytecode" => c_bytecode::replay(v),
         "total" => c_total::replay(v),
         "context_rewrites" => c_context::replay(v),
+        "shape_bind" => c_shape::replay(v),
         _ => {
             eprintln!("no replay for contract {contract}");
             return 2;
